@@ -341,10 +341,9 @@ class TermBuilder:
         if b1 == b2:
             return None
         if useblk is not None:
-            # a definition that reaches the use around a back edge is loop-carried, not a branch alternative
-            fwd = cfg.reachable_from(useblk)
+            # a definition that reaches the use only around a back edge is loop-carried, not a branch alternative
             for bd in (b1, b2):
-                if bd in fwd and not cfg.dominates(bd, useblk):
+                if bd != useblk and useblk not in self.fwd_reach(bd):
                     return None
 
         def sides(d):
@@ -398,6 +397,26 @@ class TermBuilder:
         if in_f1 and not in_t1 and in_t2 and not in_f2:
             return ("ite", c, terms[1], terms[0])
         return None
+
+    def fwd_reach(self, a):
+        """blocks reachable from a along forward edges only (back edges = edges to a dominator are not followed)"""
+        memo = getattr(self, "_fwd", None)
+        if memo is None:
+            memo = self._fwd = {}
+        if a in memo:
+            return memo[a]
+        cfg = self.cfg
+        seen = {a}
+        st = [a]
+        while st:
+            x = st.pop()
+            for y in cfg.succ[x]:
+                if y in seen or cfg.dominates(y, x):
+                    continue
+                seen.add(y)
+                st.append(y)
+        memo[a] = seen
+        return seen
 
     # -- whole-function summaries ---------------------------------------------------
     def return_terms(self):
